@@ -14,11 +14,14 @@ CONSTANTS
  DevBackupOverwrite = FALSE
  DevNoBackup = FALSE
  DevSeqOpenEarly = FALSE
+ DevLinkDirect = FALSE
+ DevBackupCount = FALSE
 INVARIANT NoEarlyEffect
 INVARIANT SuccessState
 INVARIANT OthersKept
 INVARIANT OnlyBackupCreated
 INVARIANT NoLoss
+INVARIANT BackupResolves
 INVARIANT TargetWhole
 INVARIANT TmpClean
 INVARIANT BoundOK
